@@ -189,17 +189,18 @@ def run(res, tier, rng, table_diffs=()):
         got = {hfresh[k]} | {ht[j] for j in range(k, len(ht), len(heavy))}
         if (len(got) != 1 or hexp[k] not in {g.split(" @m=")[0] for g in got}) and hexp[k] != "BUDGET" and not hexp[k].startswith(("TIMEOUT", "CRASH")):
             res.violation("a resource-heavy program evaluates differently when other evaluations are alive in the same process",
-                          dict(kind="impure", input=p if len(p) < 3000 else p[:1500] + " ... " + p[-600:], full_input_len=len(p), expected_model=hexp[k][:300],
+                          dict(kind="impure", input=p, budget=hb, heavy=True, expected_model=hexp[k][:300],
                                answers={"fresh-process": hfresh[k][:300], "threads-16": sorted(x[:300] for x in got)}))
 
 
 def replay(res, rp):
     p = rp["input"]
-    q = "evalm 200000 " + hx(p)
-    a = core.impl([q])[0]
-    b = core.impl([q], profile="debug")[0]
-    c = core.impl(["threadsm 16 7 200000 " + " ".join([hx(p)] * 4)])[0].split(" ;; ")[0]
-    m = core.model(["eval 200000 " + hx(p)])[0]
+    bud = rp.get("budget", 200000)
+    q = "evalm %d %s" % (bud, hx(p))
+    a = core.impl([q], per_request_timeout=300)[0]
+    b = core.impl([q], profile="debug", per_request_timeout=600)[0]
+    c = core.impl(["threadsm 16 7 %d %s" % (bud, " ".join([hx(p)] * (16 if rp.get("heavy") else 4)))], per_request_timeout=600)[0].split(" ;; ")[0]
+    m = rp["expected_model"].split(" @m=")[0] if rp.get("heavy") and len(p) > 500000 else core.model(["eval %d %s" % (bud, hx(p))], per_request_timeout=600)[0]
     print(a, "|", b, "|", c, "|", m)
     if len({a, b, c}) != 1 or a.split(" @m=")[0] != m:
         print("VIOLATION property=C16 replay=replay")
